@@ -124,6 +124,23 @@ def parseSpec (s : String) : Option Val :=
   | some (v, []) => some v
   | _ => none
 
+/- registers reachable through winners that hold more than one value (`get_all(..).len() > 1`);
+   shows that the harness really produced the conflicts the spec asks for -/
+mutual
+def conflicts : Val → Nat
+  | .map es => conflictsEntries es
+  | .list rs => conflictsRegs rs
+  | _ => 0
+def conflictsEntries : List (String × Reg) → Nat
+  | [] => 0
+  | (_, .live w ls) :: es => (if ls.isEmpty then 0 else 1) + conflicts w + conflictsEntries es
+  | (_, .dead) :: es => conflictsEntries es
+def conflictsRegs : List Reg → Nat
+  | [] => 0
+  | .live w ls :: rs => (if ls.isEmpty then 0 else 1) + conflicts w + conflictsRegs rs
+  | .dead :: rs => conflictsRegs rs
+end
+
 def showLen : Option Nat → String
   | some n => toString n
   | none => "-"
@@ -152,7 +169,8 @@ def exec (toks : List String) : List String :=
       let evs := v.serialize
       [ "json " ++ (exportJson v).render,
         "events " ++ " ".intercalate (evs.map showEv),
-        "lens " ++ (if lengthsTrue evs then "ok" else "bad") ]
+        "lens " ++ (if lengthsTrue evs then "ok" else "bad"),
+        s!"conflicts {conflicts v}" ]
   | ["serde.cli", hx] =>
     match unhx hx with
     | none => ["bad-input"]
